@@ -16,15 +16,17 @@ const repoMod = "github.com/aukilabs/hagall"
 
 // Program is the type-checked view of /repo's working tree.
 type Program struct {
-	normalized int // constructions rewritten into composite literals by the loader
-	Dir   string
-	Fset  *token.FileSet
-	Pkgs  []*packages.Package          // the repo packages (sorted by path)
-	ByPth map[string]*packages.Package // all loaded packages (incl. deps)
-	Funcs map[*types.Func]*Func        // every declared function/method of the repo packages
-	Lits  map[*ast.FuncLit]*Func       // every function literal in repo packages
-	All   []*Func                      // declared funcs of the repository, sorted
-	Ext   []*Func                      // declared funcs of indexed dependency packages
+	keySnap    map[*types.Func]string // methods that return a fresh slice of the keys of a map field
+	shadowed   map[*types.Var]bool    // fields that carry a role's name with another type
+	normalized int                    // constructions rewritten into composite literals by the loader
+	Dir        string
+	Fset       *token.FileSet
+	Pkgs       []*packages.Package          // the repo packages (sorted by path)
+	ByPth      map[string]*packages.Package // all loaded packages (incl. deps)
+	Funcs      map[*types.Func]*Func        // every declared function/method of the repo packages
+	Lits       map[*ast.FuncLit]*Func       // every function literal in repo packages
+	All        []*Func                      // declared funcs of the repository, sorted
+	Ext        []*Func                      // declared funcs of indexed dependency packages
 
 	info map[*ast.File]*packages.Package
 
@@ -351,7 +353,7 @@ func (p *Program) LookupType(pkgPath, typeName string) *types.TypeName {
 }
 
 func (p *Program) LookupField(pkgPath, typeName, field string) *types.Var {
-	if v := p.plainLookup(pkgPath, typeName, field); v != nil {
+	if v := p.plainLookup(pkgPath, typeName, field); v != nil && !p.shadowed[v] {
 		return v
 	}
 	return p.roleVar[roleKey{pkgPath, typeName, field}]
@@ -429,6 +431,9 @@ func (p *Program) isGlueRaw(f *types.Func) bool {
 	def := p.Funcs[f]
 	if def == nil || def.Body == nil {
 		return false
+	}
+	if p.keySnapshotField(f) != "" {
+		return false // a snapshot of a map's keys: its call stands for the map it reads, like a getter
 	}
 	if !f.Exported() {
 		return true
